@@ -3,14 +3,29 @@ from . import explore
 from .common import HarnessError, Report, Violation
 
 
+def confirm_all(spec, report):
+    """Every history violation must reproduce from its replay data (fresh world, this process) before it is reported.
+
+    A violation that does not reproduce is not reported: something outside the explored state influenced it (typically
+    module-level state of the library shared between executions in one worker process). If others do reproduce the run
+    reports those and lists the dropped signatures in coverage.unconfirmed_dropped; if none does, that is a harness error.
+    """
+    dropped = []
+    for sig, viol in list(report.violations.items()):
+        if viol.replay and viol.replay.get("kind") == "history" and not explore.confirm(spec, viol):
+            dropped.append(viol.signature)
+            del report.violations[sig]
+    if dropped:
+        report.coverage["unconfirmed_dropped"] = dropped
+        if not report.violations:
+            raise HarnessError(f"violation(s) {dropped[:3]} did not reproduce from their replay data and nothing else was found")
+        print(f"note: {len(dropped)} violation signature(s) did not reproduce from their replay data and were dropped: {dropped[:5]}")
+
+
 def run_e1(spec, tier, depth, state_budget, time_budget, rule, assumptions, level="model_checking", extra_cov=None, post=None):
     report = Report(spec.prop, level, tier)
     explore.run(spec, report, tier, depth, state_budget, time_budget)
-    # every history violation must reproduce from its replay data before it is reported
-    for viol in list(report.violations.values()):
-        if viol.replay and viol.replay.get("kind") == "history":
-            if not explore.confirm(spec, viol):
-                raise HarnessError(f"violation {viol.signature} did not reproduce from its replay data")
+    confirm_all(spec, report)
     cov = report.coverage
     wit = cov.get("witnesses", {})
     cov["rule"] = rule
